@@ -75,6 +75,7 @@ KINDS = {
 }
 KINDS['C15'] = {'limit-error', 'limit-all', 'limit-count', 'limit-phantom', 'limit-order', 'limit-newest', 'limit-recent', 'panic'}
 KINDS['C13'] = {'snapshot-error', 'snapshot-mismatch', 'snapshot-silent', 'panic'}
+KINDS['C01'] |= {'snapshot-silent'}
 TRACE_INV = {
     'C01': {'Convergence'},
     'C06': {'ViewConforms', 'ViewMatches', 'CausalOrder'},
@@ -181,7 +182,8 @@ def c01(prop, tier):
     sz['n_random'] = max(4, sz['n_random'] // 2)
     for stype in ['kv', 'log', 'doc']:
         small = cfg_small(stype, ['a', 'b'], 3 if stype != 'doc' else 2, 1) if (tier == 'thorough' or stype == 'kv') else None
-        res = run_core(ck, prop, stype, tier, final_sync=True, small=small, extra={'load_sync': True}, **sz)
+        # route "snapshot" of the property: the snapshot phase of C13, including a snapshot loaded by a store that already holds more
+        res = run_core(ck, prop, stype, tier, final_sync=True, small=small, extra={'load_sync': True, 'snapshots': tier == 'thorough' or stype != 'doc'}, **sz)
         ck.extra['load_then_sync'] = ck.extra.get('load_then_sync', 0) + res.get('stats', {}).get('load_then_sync', 0)
     # a replica whose writes and merges overlapped against one that received the same entries one after the other (spec/IndexRace.tla)
     import sched_family
